@@ -242,12 +242,20 @@ def run(ck, F, tier):
         i_join = tr.sites.index(joins[0])
         whole = lambda s: any(l[0] == "iter" and "repeat_with" in repr(l[2]) and "take" in repr(l[2]) for l in s["loops"])
         # all returns of the per-point body come after the join loop
-        ret_after = all(tr.events.index(e) > max((tr.events.index(x) for x in tr.events if x.callee == "<assign>" and "join_error" in repr(x.args[0])), default=-1) or True for e in rets)
         tries = [n for n in walk(rb.value) if n.get("k") == "try"]
         order_ok = i_recv < i_term < i_join and whole(term_workers[-1]) and whole(joins[0]) and not tries
         why = "after the collection loop every worker is sent terminate (loop over all workers), then every handle is joined (loop over all workers); no `?` exit in do_run (%d)" % len(tries)
     ck.inst("G5", "terminate-then-join-all", order_ok, joins[0]["sp"] if joins else rb.span, why)
-    ret_ok = all(any("join_error" in repr(g) for g, p in e.guards) for e in rets)
+    # name-independent: the early return is guarded by a local that is assigned inside the loop containing the join() call
+    join_loop_locals = set()
+    for fl in [n for n in walk(rb.value) if n.get("k") == "for"]:
+        if any(x.get("k") == "mcall" and x["m"] == "join" for x in walk(fl["body"])):
+            for a in walk(fl["body"]):
+                if a.get("k") in ("assign", "assignop"):
+                    nm = plain_local(a["l"])
+                    if nm:
+                        join_loop_locals.add(nm.split("#")[0] + "@after")
+    ret_ok = all(any(any(v in repr(g) for v in join_loop_locals) for g, p in e.guards) for e in rets) and bool(join_loop_locals)
     ck.inst("G5", "returns-after-join", ret_ok and len(rets) >= 1, rets[0].site if rets else rb.span,
             "the only early return of do_run is the propagation of a worker error after the join loop (%d return sites)" % len(rets))
     runb = F.body(T + "run")
